@@ -398,11 +398,14 @@ def unpack(format: str, buffer: bytes) -> tuple[Any, ...]:
     ):
         # Unpack 2-, 4-, or 8-byte int. Size depends on the length of digit_groups[1]
         # 1-4 digits is two bytes. 5-9 digits is 4 bytes. 10-18 is 8 bytes.
-        if len(representation.digit_groups[1]) < 5:
+        digits = len(representation.digit_groups[1]) + len(
+            representation.digit_groups[3]
+        )
+        if digits < 5:
             format = ">h"
-        elif 5 <= len(representation.digit_groups[1]) < 10:
+        elif 5 <= digits < 10:
             format = ">i"
-        elif 10 <= len(representation.digit_groups[1]) <= 18:
+        elif 10 <= digits <= 18:
             format = ">q"
         else:  # pragma: no cover
             raise ValueError(f"Usage {representation!r} too large")
